@@ -863,3 +863,224 @@ def c05(tier, seed):
                         "steps": steps})
             n += 1
     return out
+
+
+# ----------------------------------------------------------------------------- C08
+
+def c08(tier, seed):
+    rng = random.Random(seed * 7919 + 8)
+    out = []
+    n = 0
+    ns = [1, 5, 12, 40] if tier == "quick" else [1, 2, 5, 12, 40, 120, 300]
+    plans = []
+    for total in ns:
+        for peer in ("raw", "wt"):
+            for role in ("server", "client"):
+                for tasks in (1, 2, 4):
+                    for cancel in (None, 1, 4):
+                        for delay in (0, 3):
+                            plans.append((total, peer, role, tasks, cancel, delay))
+    if tier == "quick":
+        base = [p for p in plans if p[0] in (1, 5) and p[3] == 1 and p[4] is None and p[5] == 0]
+        plans = base + pick(rng, [p for p in plans if p not in base], 40)
+    else:
+        plans = pick(rng, plans, 220)
+    for (total, peer, role, tasks, cancel, delay) in plans:
+        n_uni = total - total // 3
+        n_bi = total // 3
+        opener = "peer" if peer == "raw" else "app2"
+        steps = []
+        if peer == "raw":
+            steps += [step("peer", "open_n", tag="ou", kind="uni", n=n_uni, sid=v62(0), ms=25000)]
+            if n_bi:
+                steps += [step("peer", "open_n", tag="ob", kind="bi", n=n_bi, sid=v62(0), ms=25000)]
+        else:
+            steps += [step("app2", "spawn", op="open_n_uni", tag="ou", n=n_uni, ms=25000)]
+            if n_bi:
+                steps += [step("app2", "spawn", op="open_n_bi", tag="ob", n=n_bi, ms=25000)]
+        # acceptors: `tasks` per kind; each may take everything (they stop when the budget ends)
+        budget = 6000 + total * 40
+        for t in range(tasks):
+            st = step("app", "spawn", op="accept_n_uni", tag="au%d" % t, n=n_uni, delay_ms=delay, ms=budget)
+            if cancel:
+                st["cancel_ms"] = cancel
+            steps.append(st)
+            if n_bi:
+                st = step("app", "spawn", op="accept_n_bi", tag="ab%d" % t, n=n_bi, delay_ms=delay, ms=budget)
+                if cancel:
+                    st["cancel_ms"] = cancel
+                steps.append(st)
+        steps.append(step(opener, "await", tag="ou", ms=30000))
+        if n_bi:
+            steps.append(step(opener, "await", tag="ob", ms=30000))
+        # the acceptors end when their budget runs out or they got everything; wait for them
+        for t in range(tasks):
+            steps.append(step("app", "await", tag="au%d" % t, ms=budget + 2000))
+            if n_bi:
+                steps.append(step("app", "await", tag="ab%d" % t, ms=budget + 2000))
+        out.append({"scn": "C08-%04d" % n, "role": role, "peer": peer,
+                    "meta": {"prop": "C08", "n": total, "tasks": tasks, "cancel_ms": cancel or 0, "delay_ms": delay},
+                    "steps": steps})
+        n += 1
+    return out
+
+
+# ----------------------------------------------------------------------------- C07
+
+def c07(tier, seed):
+    rng = random.Random(seed * 7919 + 7)
+    out = []
+    n = 0
+    live = 0
+    positions = ["partial1", "partial_sid", "pre_silent", "window"]
+    ks = [1, 2, 3, 4, 5]
+    plans = []
+    for role in ("server", "client"):
+        for kind in ("uni", "bi"):
+            for pos in positions:
+                for k in ks:
+                    for order in ("stalled_first", "healthy_first"):
+                        plans.append((role, kind, pos, k, order))
+    if tier == "quick":
+        must = [p for p in plans if p[3] in (1, 3, 4) and p[2] in ("partial1", "pre_silent") and p[4] == "stalled_first" and p[0] == "server"]
+        plans = must + pick(rng, [p for p in plans if p not in must], 14)
+    for (role, kind, pos, k, order) in plans:
+        steps = []
+        healthy, accepts = [], []
+        hcount = [0]
+
+        def healthy_pair():
+            """one healthy uni and one healthy bidi stream, accepted and read"""
+            st = []
+            for hk in ("uni", "bi"):
+                hcount[0] += 1
+                tag = "h%d" % hcount[0]
+                pre = wt_uni_preamble(live) if hk == "uni" else wt_bi_preamble(live)
+                st += [step("peer", "open_" + hk, tag=tag),
+                       step("peer", "write", tag=tag, bytes=pre + [1, 2, 3]),
+                       step("peer", "fin", tag=tag),
+                       step("app", "accept_" + hk, tag="a" + tag, ms=5000),
+                       step("app", "read", tag="a" + tag, ms=3000)]
+                healthy.append(tag)
+                accepts.append("a" + tag)
+            return st
+
+        if order == "healthy_first":
+            steps += healthy_pair()
+        for i in range(k):
+            tag = "s%d" % i
+            pre = wt_uni_preamble(live) if kind == "uni" else wt_bi_preamble(live)
+            steps.append(step("peer", "open_" + kind, tag=tag))
+            if pos == "partial1":
+                steps.append(step("peer", "write", tag=tag, bytes=pre[:1]))
+            elif pos == "partial_sid":
+                steps.append(step("peer", "write", tag=tag, bytes=pre[:2]))
+            elif pos == "pre_silent":
+                steps.append(step("peer", "write", tag=tag, bytes=pre))
+                steps.append(step("app", "accept_" + kind, tag="x" + tag, ms=5000))   # accepted, never read
+            elif pos == "window":
+                steps.append(step("peer", "write", tag=tag, bytes=pre))
+                steps.append(step("peer", "write", tag=tag, len=200000, salt=i, ms=300))
+                steps.append(step("app", "accept_" + kind, tag="x" + tag, ms=5000))
+            steps.append(sleep(15))
+        steps.append(sleep(60))
+        steps += healthy_pair()
+        for j in range(3):
+            steps.append(step("peer", "dgram", bytes=varint(live // 4) + [7, j]))
+        steps += [sleep(30), step("app", "recv_dgram", ms=2500)]
+        steps += healthy_pair()
+        steps += [step("app", "close", code=v62(4711), reason=[111, 107]), sleep(150)]
+        out.append({"scn": "C07-%04d" % n, "role": role, "peer": "raw", "settle_ms": 80,
+                    "meta": {"prop": "C07", "kind": kind, "pos": pos, "k": k, "order": order,
+                             "healthy": healthy, "accepts": accepts},
+                    "steps": steps})
+        n += 1
+    return out
+
+
+# ----------------------------------------------------------------------------- C09
+
+def c09(tier, seed):
+    rng = random.Random(seed * 7919 + 9)
+    out = []
+    n = 0
+    live = 0
+    causes = ["peer_close", "capsule", "fin", "proto", "local_close", "idle", "drop", "drop_stalled"]
+    pend_sets = [["accept_uni", "accept_bi", "recv_dgram"], ["closed", "accept_uni"], ["read", "stopped"],
+                 ["accept_uni", "read", "closed", "recv_dgram", "accept_bi", "stopped"], []]
+    plans = []
+    for role in ("server", "client"):
+        for cause in causes:
+            for ps in pend_sets:
+                for clones in (0, 2):
+                    plans.append((role, cause, ps, clones))
+    if tier == "quick":
+        must = [p for p in plans if p[2] == pend_sets[3] and p[3] == 0]
+        plans = must + pick(rng, [p for p in plans if p not in must], 16)
+    for (role, cause, ps, clones) in plans:
+        drop = cause.startswith("drop")
+        cfg = {}
+        if cause == "idle":
+            cfg = {"idle_ms": 700, "peer_idle_ms": 30000}
+        steps = []
+        for _ in range(clones):
+            steps.append(step("app", "clone_conn"))
+        # streams for the stream-level pending operations
+        steps += [step("peer", "open_uni", tag="pu"),
+                  step("peer", "write", tag="pu", bytes=wt_uni_preamble(live) + [1, 2, 3]),
+                  step("app", "accept_uni", tag="ru", ms=4000),
+                  step("app", "open_uni", tag="su"),
+                  step("app", "write", tag="su", len=4, salt=1)]
+        if cause == "drop_stalled":
+            steps += [step("peer", "open_uni", tag="st"), step("peer", "write", tag="st", bytes=[0x40]),
+                      step("peer", "open_bi", tag="sb"), step("peer", "write", tag="sb", bytes=[0x40]), sleep(40)]
+        k = 0
+        tags = []
+        for op in ps:
+            if drop:
+                continue          # any pending call holds a handle: "all handles dropped" excludes them
+            k += 1
+            tag = "p%d" % k
+            if op == "read":
+                steps.append(step("app", "spawn", op="read", tag="ru", ms=6000, limit=100))
+                tags.append("ru")
+            elif op == "stopped":
+                steps.append(step("app", "spawn", op="stopped", tag="su", ms=6000))
+                tags.append("su")
+            else:
+                steps.append(step("app", "spawn", op=op, tag=tag, ms=6000))
+                tags.append(tag)
+        steps.append(sleep(60))
+        steps.append({"who": "h", "a": "mark", "name": "cause"})
+        if cause == "peer_close":
+            steps.append(step("peer", "close", code=v62(rng.choice([0, 7, 16384, (1 << 62) - 1])), reason=list(b"over")))
+        elif cause == "capsule":
+            steps.append(step("peer", "write", tag="req", bytes=close_capsule_frame(rng.choice([0, 9, (1 << 32) - 1]), b"c09")))
+        elif cause == "fin":
+            steps.append(step("peer", "fin", tag="req"))
+        elif cause == "proto":
+            steps.append(step("peer", "write", tag="ctrl", bytes=frame(0, b"x")))
+        elif cause == "local_close":
+            steps.append(step("app", "close", code=v62(rng.choice([0, 5, (1 << 62) - 1])), reason=list(b"bye")))
+        elif cause == "idle":
+            steps.append(sleep(1700))
+        else:
+            # every handle: the streams too (a stream handle keeps the QUIC connection referenced)
+            steps += [step("app", "drop_stream", tag="ru"), step("app", "drop_stream", tag="su"),
+                      step("app", "drop_conn")]
+        for t in tags:
+            steps.append(step("app", "await", tag=t, ms=7000))
+        if drop:
+            steps.append(sleep(3500))
+        else:
+            steps.append(sleep(100))
+            steps += [step("app", "accept_uni", tag="l1", ms=5000), step("app", "accept_bi", tag="l2", ms=5000),
+                      step("app", "recv_dgram", tag="l3", ms=5000), step("app", "open_uni", tag="l4", ms=5000),
+                      step("app", "open_bi", tag="l5", ms=5000), step("app", "closed", tag="l6", ms=5000),
+                      step("app", "read", tag="ru", ms=5000, limit=100), step("app", "write", tag="su", len=3, salt=2, ms=5000),
+                      step("app", "finish", tag="su", ms=5000)]
+        out.append({"scn": "C09-%04d" % n, "role": role, "peer": "raw", "cfg": cfg, "settle_ms": 100,
+                    "meta": {"prop": "C09", "cause": "drop" if drop else cause, "variant": cause, "pending": ps, "clones": clones},
+                    "steps": steps})
+        n += 1
+    return out
